@@ -139,6 +139,13 @@ def k40(args):
                     n = len(present)
                     out.append([F(round(float(v) * 2 * n * 4096), 4096), n])
             res.append(out)
+        elif t == 16:
+            import io, contextlib
+            with contextlib.redirect_stdout(io.StringIO()):
+                model.print()
+            for o in objs:
+                o.state(); o.is_contradiction(); o.get_data()
+            res.append([dump(objs)])
         elif t == 14:
             from lnn import Loss
             res.append([fr(model.loss_fn([Loss.CONTRADICTION])[0])])
